@@ -2,6 +2,7 @@ package interp
 
 import (
 	"fmt"
+	"go/types"
 	"sort"
 	"strings"
 
@@ -176,6 +177,40 @@ func registerFS(ip *Interp) {
 		}
 		h.off += n
 		return Tuple{ip.intC(int64(n)), Iface{}}
+	})
+	// (*os.File).Stat: a *os.fileStat with name and size filled in (its accessor methods are interpreted)
+	ip.allowFn["(*os.fileStat).Size"] = true
+	ip.allowFn["(*os.fileStat).Name"] = true
+	ip.allowFn["(*os.fileStat).IsDir"] = true
+	ip.allowFn["(*os.fileStat).Mode"] = true
+	stub("(*os.File).Stat", func(ip *Interp, fr *frame, a []Value) Value {
+		h := a[0].(*Native).V.(*fsHandle)
+		f := ip.fs.files[h.name]
+		if f == nil || h.closed {
+			return Tuple{Iface{}, ip.fsErr("stat "+h.name+": file already closed", false)}
+		}
+		t := ip.namedType("os", "fileStat")
+		st := ip.zero(t).(Struct)
+		base := h.name
+		if i := strings.LastIndex(base, "/"); i >= 0 {
+			base = base[i+1:]
+		}
+		st[0] = mkStr(ip.ctx, base)
+		st[1] = ip.ctx.BV(uint64(len(f.data.B)), 64)
+		p := new(Value)
+		*p = st
+		return Tuple{Iface{T: types.NewPointer(t), V: p}, Iface{}}
+	})
+	stub("os.WriteFile", func(ip *Interp, fr *frame, a []Value) Value {
+		name := ip.concStr(a[0], "file name")
+		r := open(ip, name, true, true).(Tuple)
+		if e := r[1].(Iface); e.T != nil {
+			return e
+		}
+		f := ip.fs.files[name]
+		f.data = strOf(append([]*sym.Term(nil), sliceBytes(a[1])...))
+		ip.fs.trace = append(ip.fs.trace, fmt.Sprintf("write:%s", name))
+		return Iface{}
 	})
 	stub("os.Create", func(ip *Interp, fr *frame, a []Value) Value {
 		return open(ip, ip.concStr(a[0], "file name"), true, true)
